@@ -415,6 +415,37 @@ def minMaxRange (rec : List α) (f : Nat) : Option (Range α) :=
 def minMaxMayBe (d : Disc α) (c : Cond α) (rec : List α) (f : Nat) : Option Bool :=
   (minMaxRange rec f).map fun rg => (checkInRange d c [rg]).canBeTrue
 
+/-- one answer of a run of `MayBeInFragment(0), (1), …` over an index record with nulls. -/
+inductive MMAns where
+  | yes | no | err | panic
+deriving DecidableEq, Repr
+
+/-- `MayBeInFragment` called for fragments `f, f+1, … < n` in order, index record `rec` with nulls
+(`none`), `nullV` = how a null `FieldRef` compares (`FieldRef.Less`: below every value).
+Fragment 0 compares the rows as they are. A later fragment replaces a null bound by the shared
+sentinel `NEGATIVE_INFINITY` (both bounds: the right one too) — and the *next* call then writes
+`row = fragId` into that sentinel and dereferences its nil column list: it panics, and the
+package-level sentinel is left corrupted (`aliased` = a bound is the sentinel). Returns the
+answers up to the first panic and whether the sentinel was written to. -/
+def minMaxRunNull (d : Disc α) (c : Cond α) (nullV : α) (rec : List (Option α)) :
+    Nat → Nat → Bool → List MMAns × Bool
+  | 0, _, _ => ([], false)
+  | fuel + 1, f, aliased =>
+    if aliased then ([.panic], true)
+    else
+      match rec[f]?, rec[f + 1]? with
+      | some a, some b =>
+        let ext (x : Option α) : Ext α × Bool :=
+          match x with
+          | some v => (.val v, false)
+          | none => if f == 0 then (.val nullV, false) else (.negInf, true)
+        let (l, al) := ext a
+        let (r, ar) := ext b
+        let ans := if (checkInRange d c [⟨l, r, true, true⟩]).canBeTrue then MMAns.yes else MMAns.no
+        let (rest, corrupted) := minMaxRunNull d c nullV rec fuel (f + 1) (al || ar)
+        (ans :: rest, corrupted)
+      | _, _ => ([.panic], false)
+
 /-- the layout the comment in min_max_index.go documents: two rows (min, max) per fragment. -/
 def minMaxRangeDocumented (rec : List α) (f : Nat) : Option (Range α) :=
   match rec[2 * f]?, rec[2 * f + 1]? with
